@@ -60,6 +60,18 @@ func i64(v int64) *int64 { return &v }
 // ArgKeys is the alphabet of top-level argument names used by the chain checks.
 var ArgKeys = []string{"a", "b", "c", "n", "s", "l", "foo"}
 
+// globEscape writes a literal text as a like pattern (stars and backslashes escaped).
+func globEscape(x string) string {
+	out := ""
+	for i := 0; i < len(x); i++ {
+		if x[i] == '*' || x[i] == '\\' {
+			out += `\`
+		}
+		out += string(x[i])
+	}
+	return out
+}
+
 // DrawArgs draws a small argument map with scalar and list values.
 func DrawArgs(t *rapid.T, label string) []val.KV {
 	n := rapid.IntRange(0, 5).Draw(t, label+"_n")
@@ -76,7 +88,7 @@ func DrawArgs(t *rapid.T, label string) []val.KV {
 		case 0, 1:
 			v = val.Int(int64(rapid.IntRange(-3, 10).Draw(t, label+"_i")))
 		case 2:
-			v = val.Str(rapid.SampledFrom([]string{"", "a", "abc", "foo", "foobar", "Alice", "bob@example.com"}).Draw(t, label+"_s"))
+			v = val.Str(rapid.SampledFrom([]string{"", "a", "abc", "foo", "foobar", "Alice", "bob@example.com", `C:\Users\alice\notes.txt`, "50%*off", `a\*b`, `\\host\share`, "*", `\`}).Draw(t, label+"_s"))
 		case 3:
 			v = val.Float(float64(rapid.IntRange(-4, 8).Draw(t, label+"_f")) + 0.5)
 			if rapid.IntRange(0, 5).Draw(t, label+"_fnf") == 3 {
@@ -227,9 +239,9 @@ func drawStmtOnce(t *rapid.T, args []val.KV, want bool, label string) pol.Stmt {
 			return pol.Stmt{Op: "==", Sel: fs, Lit: &lit}
 		case 2:
 			k := rapid.IntRange(0, len(s)).Draw(t, label+"_cut")
-			return pol.Stmt{Op: "like", Sel: fs, Pat: s[:k] + "*"}
+			return pol.Stmt{Op: "like", Sel: fs, Pat: globEscape(s[:k]) + "*"}
 		default:
-			return pol.Stmt{Op: "like", Sel: fs, Pat: "*" + rapid.SampledFrom([]string{"", "@example.com", "bar", "zzz", "c"}).Draw(t, label+"_suf")}
+			return pol.Stmt{Op: "like", Sel: fs, Pat: "*" + rapid.SampledFrom([]string{"", "@example.com", "bar", "zzz", "c", `\\notes.txt`, `\*off`, "b"}).Draw(t, label+"_suf")}
 		}
 	case "bool":
 		lit := val.Bool(rapid.Bool().Draw(t, label+"_bv"))
